@@ -27,6 +27,7 @@ type Case struct {
 	Harness string `json:"harness"`
 	Tier    int    `json:"tier"`
 	Draws   []Draw `json:"draws"`
+	Expect  string `json:"expect,omitempty"` // label of the violation to confirm
 }
 
 type Result struct {
@@ -41,6 +42,12 @@ type state struct {
 	pos int
 	seq map[string]int
 	res Result
+
+	// layout-dependent draws (LenLayout): the range asked for natively and
+	// an optional override of the recorded value
+	layoutLo, layoutHi int
+	layoutSeen         bool
+	override           *int
 }
 
 var cur *state
@@ -110,6 +117,25 @@ func IntRange(name string, lo, hi int) int {
 // Len draws a length in [lo, hi]; the engine forks over every feasible value.
 func Len(name string, lo, hi int) int { return IntRange(name, lo, hi) }
 
+// LenLayout is Len for an index whose meaning depends on the byte layout of
+// a file that differs between the engine (identity zlib) and the native build
+// (real zlib), such as "the k-th ReadAt call".  When a counterexample does not
+// reproduce with the recorded value, the native replay tries every value of
+// the native range (at most one LenLayout draw per harness).
+func LenLayout(name string, lo, hi int) int {
+	v := Int("layout:" + name)
+	if cur != nil {
+		cur.layoutLo, cur.layoutHi, cur.layoutSeen = lo, hi, true
+		if cur.override != nil {
+			v = *cur.override
+		}
+	}
+	if v < lo || v > hi {
+		panic(assumeFail{})
+	}
+	return v
+}
+
 // Choice draws one of k alternatives 0..k-1; the engine forks over them.
 func Choice(name string, k int) int { return IntRange(name, 0, k-1) }
 
@@ -127,6 +153,12 @@ func Assert(c bool, label string) {
 
 func Cover(label string)      {}
 func Unwind(n int)            {}
+
+// TerminationBound(n) is Unwind(n) with the difference that exceeding the
+// bound is a violation ("terminates"): n is chosen far above what any
+// terminating run on the harness's inputs needs.  The native replay confirms
+// it by not finishing within its deadline.
+func TerminationBound(n int) {}
 func MapOrderAll()            {}
 func AllocLimit(n int64)      {}
 func Symbolic() bool          { return false }
@@ -188,7 +220,12 @@ func render(v any) string {
 }
 
 func runCase(c *Case, fn func()) (res Result) {
-	st := &state{c: c, seq: map[string]int{}}
+	r, _ := runCaseWith(c, fn, nil)
+	return r
+}
+
+func runCaseWith(c *Case, fn func(), override *int) (res Result, st *state) {
+	st = &state{c: c, seq: map[string]int{}, override: override}
 	cur = st
 	defer func() {
 		cur = nil
@@ -246,18 +283,58 @@ func RunReplay(t *testing.T, fns map[string]func()) {
 			results = append(results, Result{Status: "diverged", Msg: "unknown harness " + c.Harness})
 			continue
 		}
-		done := make(chan Result, 1)
-		go func() { done <- runCase(c, fn) }()
-		select {
-		case r := <-done:
-			results = append(results, r)
-		case <-time.After(60 * time.Second):
-			results = append(results, Result{Status: "timeout", Msg: "no result within 60s"})
-			flush()
-			os.Exit(3)
+		type outcome struct {
+			r  Result
+			st *state
 		}
+		try := func(override *int, note string) (Result, *state) {
+			done := make(chan outcome, 1)
+			go func() { r, st := runCaseWith(c, fn, override); done <- outcome{r, st} }()
+			select {
+			case o := <-done:
+				return o.r, o.st
+			case <-time.After(replayDeadline()):
+				results = append(results, Result{Status: "timeout", Msg: "no result within the deadline" + note})
+				flush()
+				os.Exit(3)
+			}
+			panic("unreachable")
+		}
+		matches := func(r Result) bool {
+			switch c.Expect {
+			case "no-panic":
+				return r.Status == "panic"
+			case "terminates":
+				return false // only a timeout confirms it
+			}
+			return r.Status == "assert" && r.Label == c.Expect
+		}
+		r, st := try(nil, "")
+		if c.Expect != "" && !matches(r) && st != nil && st.layoutSeen {
+			// the recorded index does not reproduce: the byte layout differs;
+			// look for the same violation at another index of the native range
+			for v := st.layoutLo; v <= st.layoutHi; v++ {
+				vv := v
+				r2, _ := try(&vv, fmt.Sprintf(" (layout index %d)", vv))
+				if matches(r2) {
+					r2.Msg += fmt.Sprintf(" (layout index %d)", vv)
+					r = r2
+					break
+				}
+			}
+		}
+		results = append(results, r)
 	}
 	flush()
+}
+
+func replayDeadline() time.Duration {
+	if s := os.Getenv("VERIF_REPLAY_DEADLINE_S"); s != "" {
+		if n, err := strconv.Atoi(s); err == nil && n > 0 {
+			return time.Duration(n) * time.Second
+		}
+	}
+	return 60 * time.Second
 }
 
 // ---------------------------------------------------------------- helpers
